@@ -22,6 +22,7 @@ import (
 	"sort"
 	"strconv"
 	"strings"
+	"sync"
 
 	"github.com/cornelk/hashmap"
 	"github.com/pkg/errors"
@@ -53,7 +54,7 @@ func (s *redisWrapper) Dial(address, passwd string, options ...redis.DialOption)
 }
 
 type ClusterNodes struct {
-	ServerMap   hashmap.HashMap
+	ServerMap   nodeTable
 	Replicasets []*replicaset
 
 	redisWrapper    RedisWrapper
@@ -61,6 +62,83 @@ type ClusterNodes struct {
 	passwd          string
 	lastServerNames string
 	serverChanged   bool
+}
+
+// nodeTable maps a node address to its *ClusterNode. The refresh goroutine writes it, the event loop reads it.
+// It has the methods of the lock-free hashmap.HashMap it replaces: that map lost entries (Len, Get and Iter
+// disagreeing with what had been inserted) once the same keys had been deleted and inserted again a few
+// hundred times, which is what every published topology change does in setServer.
+// The value only holds a pointer, so copies of the enclosing structs share one table.
+type nodeTable struct {
+	p *nodeTableState
+}
+
+type nodeTableState struct {
+	mu sync.RWMutex
+	m  map[interface{}]interface{}
+}
+
+func newNodeTable() nodeTable {
+	return nodeTable{p: &nodeTableState{m: make(map[interface{}]interface{})}}
+}
+
+func (t *nodeTable) Len() int {
+	if t.p == nil {
+		return 0
+	}
+	t.p.mu.RLock()
+	defer t.p.mu.RUnlock()
+	return len(t.p.m)
+}
+
+func (t *nodeTable) Get(key interface{}) (interface{}, bool) {
+	if t.p == nil {
+		return nil, false
+	}
+	t.p.mu.RLock()
+	defer t.p.mu.RUnlock()
+	v, ok := t.p.m[key]
+	return v, ok
+}
+
+// Insert adds the key if it is not there yet, like hashmap.HashMap.Insert.
+func (t *nodeTable) Insert(key interface{}, value interface{}) bool {
+	if t.p == nil {
+		*t = newNodeTable() // a ClusterNodes built without its constructor (tests)
+	}
+	t.p.mu.Lock()
+	defer t.p.mu.Unlock()
+	if _, ok := t.p.m[key]; ok {
+		return false
+	}
+	t.p.m[key] = value
+	return true
+}
+
+func (t *nodeTable) Del(key interface{}) {
+	if t.p == nil {
+		return
+	}
+	t.p.mu.Lock()
+	defer t.p.mu.Unlock()
+	delete(t.p.m, key)
+}
+
+// Iter returns the entries present at the time of the call.
+func (t *nodeTable) Iter() <-chan hashmap.KeyValue {
+	if t.p == nil {
+		ch := make(chan hashmap.KeyValue)
+		close(ch)
+		return ch
+	}
+	t.p.mu.RLock()
+	ch := make(chan hashmap.KeyValue, len(t.p.m))
+	for k, v := range t.p.m {
+		ch <- hashmap.KeyValue{Key: k, Value: v}
+	}
+	t.p.mu.RUnlock()
+	close(ch)
+	return ch
 }
 
 type ClusterNode struct {
